@@ -446,9 +446,11 @@ pub fn exit_scopes(f: &mut dyn FnMut(&[Stmt]) -> bool) -> bool {
 
 /// Offset sweep: a fixed set of small control programs (every exit as the last statement of a branch, of a loop
 /// body, of a block; a declaration as the last statement of a branch / loop body / function body; a loop as a
-/// value) shifted through EVERY code offset from 0 to 600 bytes by a prefix of 4-byte and 3-byte statements: every
-/// value of every operand byte of their jumps and slots occurs.
-pub fn offset_sweep(f: &mut dyn FnMut(&[Stmt]) -> bool) -> bool {
+/// value; loops nested in loops with an exit in the inner, the outer or both; a function with a loop defined in a
+/// loop body) shifted through EVERY code offset from 0 to `max_bytes` by a prefix of 4-byte and 3-byte
+/// statements: every value of every operand byte of their jumps and slots occurs, and every jump target takes
+/// every value below the bound (among them any value the compiler uses as a marker).
+pub fn offset_sweep(max_bytes: usize, f: &mut dyn FnMut(&[Stmt]) -> bool) -> bool {
     let lp = |body: Vec<Stmt>| -> Vec<Stmt> {
         let mut b = vec![es(assign(id("i"), infix(id("i"), Operator::Add, int(1))))];
         b.extend(body);
@@ -471,6 +473,29 @@ pub fn offset_sweep(f: &mut dyn FnMut(&[Stmt]) -> bool) -> bool {
         vec![let_("v", iff(boolean(true), vec![let_("q", int(1))], Some(vec![es(int(2))]))), print1(id("v"))],
         vec![let_("i", int(0)), let_("v", whil(infix(id("i"), Operator::Lt, int(0)), vec![es(int(1))])), print1(id("v"))],
     ];
+    // loops in loops: an exit in the inner loop only, in both, and a function with its own loop defined in a loop
+    let inner = |exit: Stmt| -> Vec<Stmt> {
+        vec![
+            let_("j", int(0)),
+            es(whil(infix(id("j"), Operator::Lt, int(4)), vec![es(assign(id("j"), infix(id("j"), Operator::Add, int(1)))), es(iff(infix(id("j"), Operator::Eq, int(2)), vec![exit], None)), es(assign(id("s"), infix(id("s"), Operator::Add, int(100))))])),
+            es(assign(id("s"), infix(id("s"), Operator::Add, id("j")))),
+        ]
+    };
+    subjects.push(lp(inner(Stmt::Break)));
+    subjects.push(lp(inner(Stmt::Continue)));
+    {
+        let mut b = inner(Stmt::Break);
+        b.push(es(iff(infix(id("i"), Operator::Eq, int(4)), vec![Stmt::Break], None)));
+        subjects.push(lp(b));
+        let mut b = inner(Stmt::Continue);
+        b.insert(0, es(iff(infix(id("i"), Operator::Eq, int(3)), vec![Stmt::Continue], None)));
+        subjects.push(lp(b));
+        subjects.push(lp(vec![
+            es(func("g", &[], vec![let_("k", int(0)), es(whil(boolean(true), vec![es(assign(id("k"), infix(id("k"), Operator::Add, int(1)))), es(iff(infix(id("k"), Operator::Gt, int(2)), vec![Stmt::Break], None))])), es(id("k"))])),
+            es(assign(id("s"), infix(id("s"), Operator::Add, calln("g", vec![])))),
+            es(iff(infix(id("i"), Operator::Eq, int(4)), vec![Stmt::Break], None)),
+        ]));
+    }
     // the same inside a function (locals)
     let top: Vec<Vec<Stmt>> = subjects.clone();
     for t in top {
@@ -479,7 +504,7 @@ pub fn offset_sweep(f: &mut dyn FnMut(&[Stmt]) -> bool) -> bool {
         subjects.push(vec![es(func("host", &[], body)), print1(calln("host", vec![]))]);
     }
     for subject in &subjects {
-        for fours in 0..=150usize {
+        for fours in 0..=(max_bytes / 4) {
             for threes in 0..4usize {
                 let mut prog: Vec<Stmt> = Vec::new();
                 for _ in 0..fours {
@@ -563,11 +588,11 @@ pub fn deep_chains(depth: usize, f: &mut dyn FnMut(&[Stmt]) -> bool) -> bool {
 }
 
 fn depth_family(sh: &mut Shard, tier: Tier) {
-    offset_sweep(&mut |prog| {
+    offset_sweep(if tier == Tier::Quick { 1_500 } else { 4_200 }, &mut |prog| {
         if sh.mine() {
             sh.begin(&|| printer::program(prog));
             sh.count("family:offset-sweep");
-            check_program(sh, "offset-sweep", prog, 4_000);
+            check_program(sh, "offset-sweep", prog, 20_000);
         }
         sh.running()
     });
